@@ -125,6 +125,9 @@ func init() {
 				if !ok {
 					return
 				}
+				if readOnlyGlobalMap(lk.X) {
+					return // a package-level lookup table (a set of kinds), not the data that is resolved
+				}
 				n++
 				_, elemIface := mt.Elem().Underlying().(*types.Interface)
 				c.check(elemIface || lk.CommaOk, fmt.Sprintf("resolveStep: map index#%d tells absent from zero", n), p.instrPos(lk), "interface element (nil when missing) or comma-ok", "a "+typeShort(lk.X.Type())+" is indexed without comma-ok: a missing key yields the element type's zero value, which is not nil, so Resolve reports the path as found")
